@@ -33,6 +33,7 @@ def verify(sid, tests=None):
     sh('git -C /repo worktree remove --force %s' % wt)
     rc, o = sh('git -C /repo worktree add --detach %s HEAD' % wt)
     assert rc == 0, o
+    shutil.copy('/repo/python/numqi/_version.py', wt + '/python/numqi/_version.py')  # generated, git-ignored
     env = dict(os.environ, PYTHONPATH=wt + '/python', PYTHONDONTWRITEBYTECODE='1', OMP_NUM_THREADS='2')
     res = {}
     try:
